@@ -112,6 +112,7 @@ def plan(tier):
         for p in range(256):
             shards.append({"kind": "graphs", "assignment": "four", "n": 4, "part": p, "parts": 256})
     shards.append({"kind": "badrefs"})
+    shards.append({"kind": "file-twins"})
     shards += H.plan_shards(['nested-revisions', 'shared-arguments'])
     return shards
 
@@ -119,6 +120,14 @@ def plan(tier):
 def cases(shard, tier):
     if shard.get("kind") == "call-histories":
         yield from H.cases_of(shard)
+        return
+    if shard["kind"] == "file-twins":
+        for twin in ("legacy-extension", "port-prefix", "both"):
+            for where in ("target-root", "lookup-root"):
+                for referenced in (True, False):
+                    for op in ("rn", "rf"):
+                        for first in ("dsdl-is-A", "twin-is-A"):
+                            yield {"kind": "file-twins", "twin": twin, "where": where, "referenced": referenced, "op": op, "first": first}
         return
     if shard["kind"] == "graphs-from-last":
         n = shard["n"]
@@ -368,7 +377,40 @@ def check_badrefs(case, R):
             ws.remove(base)
 
 
+def check_file_twins(case, R):
+    """Two FILES of one directory that encode the same full name and version (legacy extension, port-ID prefix): a reference to that
+    name and version is ambiguous and must be reported, never resolved to one of them."""
+    d = "rns" if case["where"] == "target-root" else "lk"
+    a, b = ("uint8 a\n@sealed\n", "uint16 b\n@sealed\n") if case["first"] == "dsdl-is-A" else ("uint16 b\n@sealed\n", "uint8 a\n@sealed\n")
+    files = {"%s/Foo.1.0.dsdl" % d: a}
+    if case["twin"] in ("legacy-extension", "both"):
+        files["%s/Foo.1.0.uavcan" % d] = b
+    if case["twin"] in ("port-prefix", "both"):
+        files["%s/7000.Foo.1.0.dsdl" % d] = b
+    files["rns/User.1.0.dsdl"] = ("%s.Foo.1.0 f\n" % d if case["referenced"] else "uint8 f\n") + "@sealed\n"
+    files["rns/Other.1.0.dsdl"] = "@sealed\n"
+    R.case(case, nontrivial=True, sample=(case["referenced"] and case["twin"] == "legacy-extension" and len(R.samples) < 2))
+    if case["op"] == "rn":
+        o = api.read_namespace_tree(files, "rns", ["lk"] if d == "lk" else [])
+        expect_reject = case["referenced"] or d == "rns"  # twins among the targets collide even when nothing refers to them
+    else:
+        o = api.read_files_tree(files, ["rns/User.1.0.dsdl"], ["rns"], ["lk"] if d == "lk" else [])
+        expect_reject = case["referenced"]
+    if o.error is not None and not o.error["ide"]:
+        R.violation("foreign-exception:%s@%s" % (o.error["cls"], o.error.get("culprit")), "ambiguous references are reported as InvalidDefinitionError", case, observed=o.error)
+    elif (o.error is not None) != expect_reject:
+        if expect_reject:
+            got = [t["full_name"] for t in (o.types or [])]
+            R.violation("ambiguous-reference-resolved:file-twins", "two definitions with the same name and version are reported instead of being resolved arbitrarily", case, observed=got, expected="InvalidDefinitionError")
+        else:
+            R.violation("unreferenced-twins-rejected:%s" % o.error["cls"], "definitions nobody refers to do not matter", case, observed=o.error)
+    else:
+        R.outcome("file-twins-" + ("rejected" if expect_reject else "accepted"))
+
+
 def check_case(case, R):
+    if case.get("kind") == "file-twins":
+        return check_file_twins(case, R)
     if case.get("kind") == "call-history":
         return H.check_history(case["label"], R, H.project_full, 'nested-type-depends-on-earlier-calls', 'a reference resolves to the named definition as it is on disk in THIS call (the nested type equals what reading that definition on its own yields)')
     if case["kind"] == "graph":
